@@ -571,8 +571,26 @@ pub fn main() {
                                     }
                                     let mut m = HashMap::new();
                                     if let (Ok(i), Ok(o)) = (text.parse::<TokenStream>(), s.parse::<TokenStream>()) {
+                                        // a marker that a mutation turned into a branch *name* (`let __m7 = ..`) legitimately
+                                        // occurs once per destructuring pattern: names are not user expressions
+                                        let mut names: Vec<String> = Vec::new();
+                                        let toks: Vec<TokenTree> = i.clone().into_iter().collect();
+                                        for w in 0..toks.len() {
+                                            if let TokenTree::Ident(id) = &toks[w] {
+                                                let s = id.to_string();
+                                                if s.starts_with("__m") && w >= 1 {
+                                                    let prev = |k: usize| if let Some(TokenTree::Ident(p)) = toks.get(w.wrapping_sub(k)) { p.to_string() } else { String::new() };
+                                                    if prev(1) == "let" || (prev(1) == "mut" && prev(2) == "let") || prev(1) == "ref" {
+                                                        names.push(s);
+                                                    }
+                                                }
+                                            }
+                                        }
                                         count(i, &mut m, 1);
                                         count(o, &mut m, -1);
+                                        for n in &names {
+                                            m.remove(n);
+                                        }
                                         rep.bump("accepted_inputs_checked_for_token_conservation");
                                         let mut bad: Vec<String> = m.iter().filter(|(_, d)| **d != 0).map(|(k, d)| format!("{} {}", k, if *d > 0 { format!("dropped x{}", d) } else { format!("duplicated x{}", -d) })).collect();
                                         bad.sort();
